@@ -83,9 +83,10 @@ def run(ctx, acts, api):
         raise vlib.ToolError("no transitions were emitted for replay")
     kinds = s["extra"].get("ret_kinds", {})
     want = ["Restored", "Empty", "ErrBuildpack"] if api == "struct" else ["Data", "ErrBuildpack"]
-    if any(kinds.get(k, 0) == 0 for k in want):
-        raise vlib.ToolError(f"vacuity guard: replay never saw results {want}: {kinds}")
     vlib.take_summary(ctx, s, "layers_replay")
+    # (guards on what the real code answered only count when it agreed with the specification)
+    if not s["mismatches"] and any(kinds.get(k, 0) == 0 for k in want):
+        raise vlib.ToolError(f"vacuity guard: replay never saw results {want}: {kinds}")
     ctx.add("evaluations", s["evaluations"])
     ctx.add("distinct_nontrivial", s["distinct_nontrivial"])
     ctx.cov["replayed_transitions"] = s["evaluations"]
